@@ -187,6 +187,85 @@ func vh_C20_getters() {
 	}
 }
 
+// address getters with a destination that alternates between messages: a destination that has
+// held the larger address keeps what it needs when a smaller one was decoded in between
+func vh_C20_getters_alternating() {
+	ma, _, ok := vxDecoded(1)
+	if !ok {
+		return
+	}
+	mb, _, ok := vxDecoded(1)
+	if !ok {
+		return
+	}
+	t := AttrType(vxU16())
+	switch vxChoose(2) {
+	case 0:
+		a := &XORMappedAddress{IP: vxPrevIP()}
+		if a.GetFromAs(ma, t) != nil {
+			return
+		}
+		la := len(a.IP)
+		if a.GetFromAs(mb, t) != nil {
+			return
+		}
+		vxAssume(len(a.IP) <= la) // B's address is no larger than A's
+		if len(a.IP) < la {
+			vxReach("xor-smaller-in-between")
+		}
+		var err error
+		n := vxAllocs(func() { err = a.GetFromAs(ma, t) })
+		vxAssert(err == nil, "XOR address: the getter succeeds again")
+		vxAssert(n == 0, "XOR address: decoding the larger address again, after a smaller one, allocates nothing")
+	default:
+		a := &MappedAddress{IP: vxPrevIP()}
+		if a.GetFromAs(ma, t) != nil {
+			return
+		}
+		la := len(a.IP)
+		if a.GetFromAs(mb, t) != nil {
+			return
+		}
+		vxAssume(len(a.IP) <= la)
+		if len(a.IP) < la {
+			vxReach("mapped-smaller-in-between")
+		}
+		var err error
+		n := vxAllocs(func() { err = a.GetFromAs(ma, t) })
+		vxAssert(err == nil, "address: the getter succeeds again")
+		vxAssert(n == 0, "address: decoding the larger address again, after a smaller one, allocates nothing")
+	}
+}
+
+// UNKNOWN-ATTRIBUTES destination alternating between a longer and a shorter list
+func vh_C20_unknown_alternating() {
+	ma, _, ok := vxDecoded(1)
+	if !ok {
+		return
+	}
+	mb, _, ok := vxDecoded(1)
+	if !ok {
+		return
+	}
+	vxUnwind(6, true) // lists of at most 6 types
+	var u UnknownAttributes
+	if u.GetFrom(ma) != nil {
+		return
+	}
+	la := len(u)
+	if u.GetFrom(mb) != nil {
+		return
+	}
+	vxAssume(len(u) <= la)
+	if len(u) < la {
+		vxReach("shorter-in-between")
+	}
+	var err error
+	n := vxAllocs(func() { err = u.GetFrom(ma) })
+	vxAssert(err == nil, "the getter succeeds again")
+	vxAssert(n == 0, "decoding the longer UNKNOWN-ATTRIBUTES list again, after a shorter one, allocates nothing")
+}
+
 // XOR-MAPPED-ADDRESS under any attribute type (GetFromAs), e.g. XOR-PEER-ADDRESS / XOR-RELAYED-ADDRESS
 func vh_C20_getfromas() {
 	m, _, ok := vxDecoded(1)
@@ -349,6 +428,145 @@ func vh_C20_build() {
 	n := vxAllocs(func() { err = m.Build(setters...) })
 	vxAssert(err == nil, "rebuilding succeeds")
 	vxAssert(n == 0, "rebuilding a warmed Message with pointer setters allocates nothing")
+}
+
+// vxC20Rebuild: Build twice with the same setters, the second time measured.
+func vxC20Rebuild(m *Message, setters []Setter, what string) {
+	if m.Build(setters...) != nil {
+		return
+	}
+	vxReach("built-" + what)
+	var err error
+	n := vxAllocs(func() { err = m.Build(setters...) })
+	vxAssert(err == nil, what+": rebuilding succeeds")
+	vxAssert(n == 0, what+": rebuilding with a pointer setter of this size allocates nothing")
+}
+
+// kfC20ManyUnknown: region of the open known finding "unknown-attributes-over-20-entries":
+// UnknownAttributes.AddTo encodes into a 40-byte stack buffer ("20 should be enough").
+func kfC20ManyUnknown(n int) bool { return n > 20 }
+
+// one pointer setter whose value has ANY length up to its limit (the sizes vh_C20_build enumerates are small)
+func vh_C20_build_one() {
+	m := new(Message)
+	tid := NewTransactionIDSetter(vxID())
+	tail := vxChoose(3) // nothing / FINGERPRINT / MESSAGE-INTEGRITY + FINGERPRINT after it
+	integrity := MessageIntegrity(vxBytes(5, 5))
+	with := func(s Setter) []Setter {
+		switch tail {
+		case 0:
+			return []Setter{BindingRequest, tid, s}
+		case 1:
+			return []Setter{BindingRequest, tid, s, Fingerprint}
+		}
+		return []Setter{BindingRequest, tid, s, &integrity, Fingerprint}
+	}
+	switch vxChoose(6) {
+	case 0:
+		n := vxLen(513)
+		u := Username(vxBytes(n, n))
+		vxC20Rebuild(m, with(&u), "USERNAME")
+	case 1:
+		n := vxLen(763)
+		r := Realm(vxBytes(n, n))
+		vxC20Rebuild(m, with(&r), "REALM")
+	case 2:
+		n := vxLen(763)
+		x := Software(vxBytes(n, n))
+		vxC20Rebuild(m, with(&x), "SOFTWARE")
+	case 3:
+		n := vxLen(763)
+		c := &ErrorCodeAttribute{Code: ErrorCode(vxU16()), Reason: vxBytes(n, n)}
+		vxC20Rebuild(m, with(c), "ERROR-CODE")
+	case 4:
+		n := vxChoose(24)
+		if vxKnownOpen("unknown-attributes-over-20-entries") {
+			vxAssume(!kfC20ManyUnknown(n))
+		}
+		u := make(UnknownAttributes, n)
+		for i := range u {
+			u[i] = AttrType(vxU16())
+		}
+		vxC20Rebuild(m, with(&u), "UNKNOWN-ATTRIBUTES")
+	default:
+		n := [4]int{4, 16, 0, 7}[vxChoose(4)] // valid families and invalid lengths (the setter refuses those)
+		a := &XORMappedAddress{IP: vxBytes(n, n), Port: int(vxU16())}
+		vxC20Rebuild(m, with(a), "XOR-MAPPED-ADDRESS")
+	}
+}
+
+// the same restricted to the region of the known finding: reports it while it persists
+func vh_C20_build_kf_unknown21() {
+	m := new(Message)
+	n := 21 + vxChoose(3)
+	u := make(UnknownAttributes, n)
+	for i := range u {
+		u[i] = AttrType(vxU16())
+	}
+	vxC20Rebuild(m, []Setter{BindingError, &u}, "UNKNOWN-ATTRIBUTES")
+}
+
+// batch helpers: Parse with several getters, Check with several checkers, ForEach over repeated attributes
+func vh_C20_batch() {
+	switch vxChoose(2) {
+	case 0:
+		m, _, ok := vxDecoded(vxK(2, 3))
+		if !ok {
+			return
+		}
+		var (
+			u Username
+			a XORMappedAddress
+		)
+		getters := []Getter{&u, &a}
+		if m.Parse(getters...) != nil {
+			return
+		}
+		vxReach("parsed")
+		var err error
+		n := vxAllocs(func() { err = m.Parse(getters...) })
+		vxAssert(err == nil, "Parse succeeds again")
+		vxAssert(n == 0, "Parse with warmed getters allocates nothing")
+	default:
+		m, _, ok := vxDecoded(vxK(2, 3))
+		if !ok {
+			return
+		}
+		t := AttrType(vxU16())
+		var last TextAttribute
+		count := 0
+		visit := func(m *Message) error {
+			count++
+			return last.GetFromAs(m, t)
+		}
+		if m.ForEach(t, visit) != nil {
+			return
+		}
+		if count >= 2 {
+			vxReach("visited-two")
+		}
+		vxReach("iterated")
+		var err error
+		n := vxAllocs(func() { err = m.ForEach(t, visit) })
+		vxAssert(err == nil, "ForEach succeeds again")
+		vxAssert(n == 0, "ForEach over the attributes of one type allocates nothing")
+	}
+}
+
+// Check with both checkers in one batch on a library-signed message
+func vh_C20_check_batch() {
+	buf, key := vxC20Signed(1, true, true)
+	m := new(Message)
+	if _, err := m.Write(buf); err != nil {
+		return
+	}
+	checkers := []Checker{Fingerprint, &key}
+	vxAssert(m.Check(checkers...) == nil, "the library's message passes both checks")
+	vxReach("checked")
+	var err error
+	n := vxAllocs(func() { err = m.Check(checkers...) })
+	vxAssert(err == nil, "both checks pass again")
+	vxAssert(n == 0, "Message.Check with FINGERPRINT and MESSAGE-INTEGRITY allocates nothing")
 }
 
 // Add of one attribute of any length on a reset Message (the growth boundary of Message.grow)
